@@ -187,6 +187,19 @@ def hEval (toks : List String) : Option String := do
     | none => "bad-slot"
   pure ("|".intercalate outs)
 
+def hEpLazy (toks : List String) : Option String := do
+  let p ← (kv? toks "p") >>= parseNat?
+  let mrc ← (kv? toks "mrc") >>= parseNat?
+  let fam ← (kv? toks "fam") >>= parseVec?
+  let r0 ← (kv? toks "r0") >>= parseMat?
+  let r1 ← (kv? toks "r1") >>= parseMat?
+  let c ← (kv? toks "c") >>= parseMat?
+  let F := lazyMargin fam
+  let cT := RPoly.transpose c
+  let o0 := (List.zip (RPoly.transpose r0) cT).map fun (rs, cs) => lazySlot p mrc F rs cs
+  let o1 := (List.zip (RPoly.transpose r1) cT).map fun (rs, cs) => lazySlot p mrc F rs cs
+  pure (showVec o0 ++ "|" ++ showVec o1)
+
 def handle (toks : List String) : String :=
   let r : Option String :=
     match toks with
@@ -197,6 +210,7 @@ def handle (toks : List String) : String :=
     | "rgsw_mulxm1add" :: rest => hMulXm1 rest true
     | "rgsw_addpt" :: rest => hAddPt rest
     | "ep32raw" :: rest => hEp32 rest
+    | "eplazy" :: rest => hEpLazy rest
     | "newplaintext_badtype" :: _ => some "err"
     | "addlazy_badtype" :: _ => some "panic"
     | "br_keyset" :: rest => hKeyset rest
